@@ -299,6 +299,79 @@ func c05Msg(c *Ctx, kind string, bz []byte, line string) {
 	failLimited(c, "panic:"+kind+":"+sigNorm(pmsg), hx(bz))
 }
 
+// c05Batch: a headers / blocks message whose raw entries are `raws`, through the real wire framing,
+// the reactor's decodeMessage and GetHeaders / GetBlocks (what the node does on receipt), under recover.
+//   op line: msghdrs|msgblks <hex of raw entry>[,<hex of raw entry>…]   impl line: nopanic | panic
+func c05Batch(c *Ctx, kind string, raws [][]byte, line string) {
+	var pmsg string
+	func() {
+		defer func() {
+			if r := recover(); r != nil {
+				pmsg = fmt.Sprint(r)
+			}
+		}()
+		var bz []byte
+		if kind == "msghdrs" {
+			bz = wire.BinaryBytes(struct{ msgs.BlockchainMessage }{&msgs.HeadersMessage{RawHeaders: raws}})
+		} else {
+			bz = wire.BinaryBytes(struct{ msgs.BlockchainMessage }{&msgs.BlocksMessage{RawBlocks: raws}})
+		}
+		_, m, err := chainmgr.VerifDecodeMessage(bz)
+		if err != nil {
+			return
+		}
+		switch mm := m.(type) {
+		case *msgs.HeadersMessage:
+			mm.GetHeaders()
+		case *msgs.BlocksMessage:
+			mm.GetBlocks()
+		}
+	}()
+	if pmsg == "" {
+		c.Op(line, "nopanic")
+		c.Count("outcome:batch-nopanic")
+		return
+	}
+	c.Op(line, "panic")
+	c.Count("outcome:batch-panic")
+	failLimited(c, "panic:"+kind+":"+sigNorm(pmsg), "raw entries (hex) "+line[len(kind)+1:]+": "+pmsg)
+}
+
+func c05BatchLine(kind string, raws [][]byte) string {
+	hs := make([]string, len(raws))
+	for i, r := range raws {
+		hs[i] = hx(r)
+	}
+	return kind + " " + strings.Join(hs, ",")
+}
+
+// malformed raw entries of the batch messages (the entries are JSON strings holding hex text)
+func c05BatchEntries(c *Ctx, g *codecGen) [][]byte {
+	hdr, _ := g.header().MarshalText()
+	quoted := func(b []byte) []byte { return []byte(`"` + string(b) + `"`) }
+	return [][]byte{
+		[]byte(`"`), []byte(` " `), []byte("\t\"\n"), {}, []byte(`""`), []byte(` `), []byte("\n\n"), []byte(`"" `), []byte(`"0`), []byte(`"01ab`), []byte(`01ab"`),
+		[]byte(`"zz"`), []byte(`"0"`), []byte(`123`), []byte(`null`), []byte(`true`), []byte(`{}`), []byte(`[]`), []byte(`["01"]`), []byte(`{"a":"01"}`),
+		[]byte(`"\u0030\u0031"`), []byte(`"\"`), []byte(`"\`), []byte(`'01'`), []byte(`"01""`), []byte(`""01"`), {0x22, 0x00, 0x22}, {0xff}, {0x22, 0xff, 0x22},
+		quoted(hdr), append([]byte("  "), append(quoted(hdr), '\n')...), quoted(hdr[:len(hdr)-1]), quoted(hdr[:len(hdr)/2]), hdr,
+	}
+}
+
+func c05BatchStream(c *Ctx, g *codecGen) {
+	for _, kind := range []string{"msghdrs", "msgblks"} {
+		for _, e := range c05BatchEntries(c, g) {
+			c05Batch(c, kind, [][]byte{e}, c05BatchLine(kind, [][]byte{e}))
+		}
+		// a bad entry behind a good one, and several bad ones
+		hdr, _ := g.header().MarshalText()
+		good := []byte(`"` + string(hdr) + `"`)
+		for _, e := range [][]byte{[]byte(`"`), []byte(` "`), {}, []byte(`""`)} {
+			raws := [][]byte{good, e}
+			c05Batch(c, kind, raws, c05BatchLine(kind, raws))
+		}
+	}
+}
+
 func c05Line(c *Ctx, line string) {
 	f := strings.Fields(line)
 	if len(f) != 2 {
@@ -306,6 +379,22 @@ func c05Line(c *Ctx, line string) {
 		return
 	}
 	switch f[0] {
+	case "msghdrs", "msgblks":
+		var raws [][]byte
+		for _, h := range strings.Split(f[1], ",") {
+			if h == "-" {
+				raws = append(raws, []byte{})
+				continue
+			}
+			b, err := hex.DecodeString(h)
+			if err != nil {
+				c.Op(line, "bad-op")
+				return
+			}
+			raws = append(raws, b)
+		}
+		c05Batch(c, f[0], raws, line)
+		return
 	case "msg", "cmsg":
 		var bz []byte
 		if f[1] != "-" {
@@ -445,6 +534,7 @@ func runC05(c *Ctx) {
 		c05Line(c, l)
 	}
 	g := &codecGen{r: c.Rng, count: func(string) {}}
+	c05BatchStream(c, g)
 	kinds := []string{"tx", "tx", "tx", "txd", "hdr", "hdr", "blk", "blk"}
 	for i := 0; i < c.N; i++ {
 		stream := c.Rng.Intn(20)
@@ -491,6 +581,20 @@ func runC05(c *Ctx) {
 				if len(bz) > 0 && c.Rng.Intn(2) == 0 {
 					bz[0] = []byte{0x10, 0x11, 0x12, 0x13, 0x14, 0x15, 0x21, 0x30, 0x31, 0x40, 0x50, 0x51, 0x52, 0x60, 0x61}[c.Rng.Intn(15)]
 				}
+			}
+			if c.Rng.Intn(3) == 0 { // random / mutated raw entries of a batch message
+				bk := []string{"msghdrs", "msgblks"}[c.Rng.Intn(2)]
+				ents := c05BatchEntries(c, g)
+				e := append([]byte{}, ents[c.Rng.Intn(len(ents))]...)
+				if c.Rng.Intn(2) == 0 {
+					e, _ = mutateRaw(c, e)
+				}
+				if c.Rng.Intn(4) == 0 {
+					e = append([]byte(" \t\n"[c.Rng.Intn(3):]), e...)
+				}
+				c.Count("stream:batch-message")
+				c05Batch(c, bk, [][]byte{e}, c05BatchLine(bk, [][]byte{e}))
+				continue
 			}
 			c.Count("stream:message")
 			line := kind + " " + hx(bz)
